@@ -200,9 +200,12 @@ fn intruder_bytes(kind: usize) -> Vec<u8> {
         0 => rc::ack(1),
         1 => rc::data(1, b"INTRUDER-DATA"),
         2 => rc::error(0, "intruder"),
-        _ => rc::oack(&[("blksize", "8")]),
+        3 => rc::oack(&[("blksize", "8")]),
+        4 => rc::data(1, &vec![0x49u8; 600]),  // a full-size-plus DATA block (larger than the default request buffer)
+        _ => rc::data(7, &vec![0x49u8; 2000]),
     }
 }
+const INTRUDER_KINDS: usize = 6;
 
 struct RunResult {
     viol: Vec<(String, String)>,
@@ -301,7 +304,7 @@ fn run_one(srv: &Srv, cfg: &SrvCfg, scripts: &[Script], same_file: bool, order: 
     // late duplicates: once its transfer is over an endpoint owns no transfer any more; a repeated copy of its last
     // datagram reaching the listening port must be answered with an ERROR (and must not hurt the server)
     let mut late_viol: Vec<(String, String)> = vec![];
-    let transfer_sources: Vec<usize> = cls.iter().map(|c| c.c.sources.len()).collect();
+    let mut transfer_sources: Vec<usize> = cls.iter().map(|c| c.c.sources.len()).collect();
     if !any_failed && intr.is_none() {
         quiesce();
         for (i, c) in cls.iter_mut().enumerate() {
@@ -320,6 +323,28 @@ fn run_one(srv: &Srv, cfg: &SrvCfg, scripts: &[Script], same_file: bool, order: 
                 _ => late_viol.push(("late-duplicate-not-refused".into(), format!("client {i} ({}): a late copy of its last datagram {} sent to the listening port after its transfer had ended was answered with {} instead of an ERROR", c.script.name(), rc::describe(&b), reply.as_ref().map(|r| rc::describe(r)).unwrap_or("nothing".into())))),
             }
         }
+    }
+    // the same endpoint again: client 0 runs its script a second time from the SAME socket (same address and port);
+    // the server must treat it as a new transfer of its own
+    if !any_failed && intr.is_none() && late_viol.is_empty() {
+        let c0 = &mut cls[0];
+        c0.c.reset_for_reuse();
+        c0.step = 0;
+        c0.done = false;
+        c0.got.clear();
+        if c0.script.is_upload() {
+            let _ = std::fs::remove_file(format!("{}/{}", srv.recv_dir, c0.name));
+        }
+        while !c0.done && c0.failed.is_none() {
+            c0.send_step();
+            c0.finish_step();
+        }
+        if let Some(f) = c0.failed.take() {
+            late_viol.push(("endpoint-reuse-failed".into(), format!("client 0 ({}) repeated its transfer from the same socket after the first one had ended: {f}", c0.script.name())));
+            c0.abort();
+        }
+        quiesce();
+        transfer_sources[0] = cls[0].c.sources.len();
     }
     if any_failed {
         for c in cls.iter_mut() {
@@ -447,7 +472,7 @@ pub fn cell(spec: &Value) -> Value {
         let mut intrs: Vec<Option<Intruder>> = vec![None];
         if intr_mode == "all" {
             intrs.clear();
-            for kind in 0..4 {
+            for kind in 0..INTRUDER_KINDS {
                 for to_transfer in [false, true] {
                     for position in 0..=total_steps {
                         intrs.push(Some(Intruder { kind, to_transfer, position }));
